@@ -88,7 +88,22 @@ def _abstract_args(name, args, kwargs, Table):
         keys = get(0, "keys")
         return {"keys": [str(k) for k in keys] if keys is not None else [], "allkeys": keys is None,
                 "axis": get(1, "axis", "whole")}
-    if name in ("merge", "concat", "align_to", "sort", "subsample", "collapse"):
+    if name == "merge":
+        oth = get(0, "other")
+        n = 1 if isinstance(oth, Table) else (len(oth) if isinstance(oth, (list, tuple)) else 0)
+        if n not in (1, 2):
+            return {"raw": True}
+        from biom.table import prefer_self
+        smf, omf = get(3, "sample_metadata_f", prefer_self), get(4, "observation_metadata_f", prefer_self)
+        return {"others": list("bc"[:n]), "sample": get(1, "sample", "union"), "observation": get(2, "observation", "union"),
+                "smf": "default" if smf is prefer_self else "other", "omf": "default" if omf is prefer_self else "other"}
+    if name == "concat":
+        oth = get(0, "others")
+        n = 1 if isinstance(oth, Table) else (len(oth) if isinstance(oth, (list, tuple)) else 0)
+        if n not in (1, 2):
+            return {"raw": True}
+        return {"others": list("bc"[:n]), "axis": get(1, "axis", "sample"), "via": "method"}
+    if name in ("align_to", "sort", "subsample", "collapse"):
         return {"raw": True}
     if name == "transform":
         return {"raw": True, "inplace": bool(get(2, "inplace", True))}
